@@ -263,6 +263,12 @@ def i_SH(ins, fmap):
 @__npc
 def i_SW(ins, fmap):
     dst, src = ins.operands
+    fmap[dst] = fmap(src[0:32])
+
+
+@__npc
+def i_SD(ins, fmap):
+    dst, src = ins.operands
     fmap[dst] = fmap(src)
 
 
@@ -283,7 +289,63 @@ def i_LBU(ins, fmap):
         fmap[dst] = fmap(src).zeroextend(64)
 
 
-i_LHU = i_LBU
+i_LHU = i_LWU = i_LBU
+i_LD = i_LB
+
+
+# RV64I 32-bit operations: computed on the low 32 bits, result sign-extended to 64 bits
+def _w_(fmap, x):
+    return fmap(x)[0:32]
+
+
+@__npc
+def i_ADDW(ins, fmap):
+    dst, src1, src2 = ins.operands
+    if dst is not zero:
+        fmap[dst] = (_w_(fmap, src1) + _w_(fmap, src2)).signextend(64)
+
+
+i_ADDIW = i_ADDW
+
+
+@__npc
+def i_SUBW(ins, fmap):
+    dst, src1, src2 = ins.operands
+    if dst is not zero:
+        fmap[dst] = (_w_(fmap, src1) - _w_(fmap, src2)).signextend(64)
+
+
+@__npc
+def i_SLLW(ins, fmap):
+    dst, src1, src2 = ins.operands
+    if dst is not zero:
+        n = _w_(fmap, src2) & 0x1F
+        fmap[dst] = (_w_(fmap, src1) << n).signextend(64)
+
+
+i_SLLIW = i_SLLW
+
+
+@__npc
+def i_SRLW(ins, fmap):
+    dst, src1, src2 = ins.operands
+    if dst is not zero:
+        n = _w_(fmap, src2) & 0x1F
+        fmap[dst] = (_w_(fmap, src1) >> n).signextend(64)
+
+
+i_SRLIW = i_SRLW
+
+
+@__npc
+def i_SRAW(ins, fmap):
+    dst, src1, src2 = ins.operands
+    if dst is not zero:
+        n = _w_(fmap, src2) & 0x1F
+        fmap[dst] = oper(OP_ASR, _w_(fmap, src1), n).signextend(64)
+
+
+i_SRAIW = i_SRAW
 
 
 @__npc
